@@ -1,3 +1,10 @@
+    // needed by stub_verified(SafeLong::new) only (the direct unit does not depend on the shape of the error type)
+    impl kani::Arbitrary for BoundsError {
+        fn any() -> Self {
+            BoundsError(())
+        }
+    }
+
     #[kani::proof_for_contract(SafeLong::new)]
     fn new_contract() {
         let v: i64 = kani::any();
